@@ -22,6 +22,11 @@
 //	   a vector-clock happens-before detector over all hooked accesses.
 //	   Oracle: results equal sequential results, no unordered conflicting
 //	   accesses, no deadlock.
+//	G1' first use: the benign probe workload run for the first time in a process
+//	   may only fill package-level variables that held nothing before (lazily
+//	   built caches), and returns the same observation as on its second run.
+//	G5 overlapping executions (overlap.go): two calls on distinct instances in two
+//	   goroutines, interleaved at every Read call of their input readers.
 package main
 
 import (
@@ -30,6 +35,7 @@ import (
 	"os"
 	"os/exec"
 	"reflect"
+	"regexp"
 	"sort"
 	"strings"
 	"time"
@@ -43,6 +49,7 @@ import (
 	"seehuhn.de/go/postscript/type1"
 	"seehuhn.de/go/postscript/type1/names"
 
+	"verif/env"
 	"verif/mc"
 	"verif/model/corpus"
 	"verif/model/observe"
@@ -96,14 +103,59 @@ func interpNodes(intp *postscript.Interpreter, label string) map[uintptr]string 
 
 // warmUp loads the lazily filled tables, so that the baseline is taken with
 // the caches full.
-func warmUp() {
+func warmUp() string {
 	names.ToUnicode("A", true)
 	names.ToUnicode("a62", true)
 	names.FromUnicode('A')
 	// the benign probe workload touches every reader, writer and look-up once, so
 	// that any legitimately lazily initialised cache is full before the baseline
-	probe()
+	return probe()
 }
+
+// emptyGlobals lists the package-level variables that hold nothing yet: zero
+// scalars, nil or empty maps and slices, pointers to such values.
+func emptyGlobals() map[string]bool {
+	out := map[string]bool{}
+	for k, p := range allGlobals() {
+		if deepEmpty(reflect.ValueOf(p).Elem(), 0) {
+			out[k] = true
+		}
+	}
+	return out
+}
+
+func deepEmpty(v reflect.Value, depth int) bool {
+	if depth > 8 {
+		return false
+	}
+	if opaque(v.Type()) && v.Kind() != reflect.Interface {
+		return v.Kind() == reflect.Struct || v.IsZero() // locks and once-flags carry no data
+	}
+	switch v.Kind() {
+	case reflect.Ptr, reflect.Interface:
+		return v.IsNil() || deepEmpty(v.Elem(), depth+1)
+	case reflect.Map, reflect.Slice:
+		return v.Len() == 0
+	case reflect.Struct:
+		for i := 0; i < v.NumField(); i++ {
+			if !deepEmpty(v.Field(i), depth+1) {
+				return false
+			}
+		}
+		return true
+	case reflect.Array:
+		for i := 0; i < v.Len(); i++ {
+			if !deepEmpty(v.Index(i), depth+1) {
+				return false
+			}
+		}
+		return true
+	default:
+		return v.IsZero()
+	}
+}
+
+var ptrID = regexp.MustCompile(`[&^][0-9]+`)
 
 // probe is the observable behaviour of the library on fresh instances.
 func probe() string {
@@ -120,6 +172,12 @@ func probe() string {
 	}
 	var b bytes.Buffer
 	err = corpus.SampleFont().Write(&b, nil)
+	fmt.Fprintf(&sb, "%x %v", b.Bytes(), err)
+	b.Reset()
+	l1, l2, err := corpus.SampleFont().WritePDF(&b)
+	fmt.Fprintf(&sb, "%x %d %d %v", b.Bytes(), l1, l2, err)
+	b.Reset()
+	err = corpus.SampleFont().Write(&b, &type1.WriterOptions{})
 	fmt.Fprintf(&sb, "%x %v", b.Bytes(), err)
 	b.Reset()
 	err = corpus.SampleMetrics().Write(&b)
@@ -227,6 +285,19 @@ func hostilePrograms() []hostile {
 		names.FromUnicode(0x2026)
 		return true
 	}})
+	hs = append(hs, hostile{"font written in every format and for PDF, options mutated afterwards", func() bool {
+		f := corpus.SampleFont()
+		f.WritePDF(&bytes.Buffer{})
+		for _, format := range corpus.Formats {
+			opt := &type1.WriterOptions{Format: format}
+			f.Write(&bytes.Buffer{}, opt)
+			opt.Format = 77
+		}
+		fw := env.NewFaultWriter()
+		fw.Limit = 300
+		f.WritePDF(fw)
+		return true
+	}})
 	hs = append(hs, hostile{"font read, mutated and written", func() bool {
 		f, err := type1.Read(bytes.NewReader(corpus.Fonts()[0].Data))
 		if err == nil {
@@ -245,14 +316,37 @@ var baseline struct {
 	done    bool
 	globals string
 	probe   string
+	// firstProbe is the probe workload's observation on its very first run in
+	// this process; benignChange lists initialised package-level variables that
+	// the warm-up changed.
+	firstProbe   string
+	benignChange []string
 }
 
 func ensureBaseline() {
 	if baseline.done {
 		return
 	}
-	warmUp()
+	// Package-level state may legitimately change during first use only where it
+	// is a lazily filled cache: a variable that held its zero value before.
+	zero0 := emptyGlobals()
+	g0, _ := globalsImage()
+	baseline.firstProbe = warmUp()
 	baseline.globals, _ = globalsImage()
+	l0, l1 := strings.Split(g0, "\n"), strings.Split(baseline.globals, "\n")
+	for i := 0; i < len(l0) && i < len(l1); i++ {
+		// pointer numbering is global to the image: compare without it
+		if ptrID.ReplaceAllString(l0[i], "&") == ptrID.ReplaceAllString(l1[i], "&") {
+			continue
+		}
+		name := l0[i]
+		if j := strings.Index(name, " = "); j > 0 {
+			name = name[:j]
+		}
+		if !zero0[name] {
+			baseline.benignChange = append(baseline.benignChange, name+": "+firstDiff(l0[i], l1[i]))
+		}
+	}
 	baseline.probe = probe()
 	baseline.done = true
 }
@@ -326,6 +420,12 @@ func historiesFamily(length int, budget time.Duration) mc.Family {
 			last := "none"
 			if len(seq) > 0 {
 				last = hs[seq[len(seq)-1]].name
+			}
+			if len(baseline.benignChange) > 0 {
+				return mc.Fail("C18:G1:package-state-changed-by-first-use:"+strings.SplitN(baseline.benignChange[0], ":", 2)[0], "the first run of the benign probe workload changed an initialised package-level variable: "+strings.Join(baseline.benignChange, " ; "))
+			}
+			if baseline.firstProbe != baseline.probe {
+				return mc.Fail("C18:G1:first-use-behaves-differently", "the benign probe workload gives different results on its first and on its second run in a process: "+firstDiff(baseline.firstProbe, baseline.probe))
 			}
 			g, gnodes := globalsImage()
 			if g != baseline.globals {
@@ -552,7 +652,7 @@ func main() {
 				budget = 10 * time.Minute
 				length, preempt, nOps = 3, 3, len(nameOps)
 			}
-			return []mc.Family{historiesFamily(length, budget), lazyInitFamily(preempt, nOps, budget), raceFamily()}
+			return []mc.Family{historiesFamily(length, budget), lazyInitFamily(preempt, nOps, budget), overlapFamily(preempt, budget), raceFamily()}
 		},
 	})
 }
